@@ -27,11 +27,14 @@ CONSTANTS
   NFiles,
   HintNames,
   MaxCells, MaxOps, MaxItems,
+  CmtPool,                     \* the comment values that the front-matter calls may be given (Jen!Cmt / Jen!CmtS)
+  MaxMeta,                     \* bound on the header + package comment + preamble lines (+ 1 for a canonical path) of one File
   SysExport                    \* TRUE: the history of every finished behaviour is written to OutFile
 
 VARIABLES
   cells,    \* Seq of [items : Seq(item)]    item: id | kw | op | qual | ref (Add(s)) | grp (operands are cells)
-  files,    \* Seq of [local, prefix, noformat, hints, imps, body : Seq(cell id, or -g: File g added as a Code value), anons, claims]
+  files,    \* Seq of [local, prefix, noformat, hints, imps, body : Seq(cell id, or -g: File g added as a Code value), anons, claims,
+            \*         fm : front matter [headers, comments, preamble : Seq(cmt), canonical]]
   ntok,     \* fresh identifier counter
   obs,      \* last observation
   bound,    \* history: file -> path -> qualifier first seen in any output produced with the File
@@ -74,11 +77,12 @@ CloneItem(c) == [t |-> "ref", v |-> "clone", p |-> "", c |-> c, refs |-> <<>>]  
 GrpItem(g, rs) == [t |-> "grp", v |-> g, p |-> "", c |-> 0, refs |-> rs]
 Fresh == "t" \o ToString(ntok + 1)
 
+NoFM == [headers |-> <<>>, comments |-> <<>>, preamble |-> <<>>, canonical |-> ""]
 Init ==
   /\ cells = <<>> /\ ntok = 0 /\ obs = NoObs /\ nops = 0
   /\ \E fs \in [1..NFiles -> FilePool] :
        /\ files = [i \in 1..NFiles |-> [local |-> fs[i].local, prefix |-> fs[i].prefix, noformat |-> fs[i].noformat,
-                                        hints |-> <<>>, imps |-> <<>>, body |-> <<>>, anons |-> {}, claims |-> <<>>]]
+                                        hints |-> <<>>, imps |-> <<>>, body |-> <<>>, anons |-> {}, claims |-> <<>>, fm |-> NoFM]]
        /\ hist = <<[a |-> "Files", f |-> 0, c |-> 0, d |-> 0, p |-> "", n |-> "", refs |-> <<>>,
                     files |-> [i \in 1..NFiles |-> fs[i]]]>>
   /\ bound = [i \in 1..NFiles |-> <<>>]
@@ -163,11 +167,28 @@ DoAnon(f, p) ==
   /\ files' = [files EXCEPT ![f].imps = Put(@, p, Def("_", TRUE)), ![f].anons = @ \cup {p}]
   /\ UNCHANGED <<cells, ntok, obs, bound>>
 
+\* front matter: f.HeaderComment(t), f.PackageComment(t), f.CgoPreamble(t) append; f.CanonicalPath = p replaces.  They change
+\* nothing but the File they are called on, whenever they are called - also between two renders of the same File
+MetaRoom(f) == Len(files[f].fm.headers) + Len(files[f].fm.comments) + Len(files[f].fm.preamble) + (IF files[f].fm.canonical = "" THEN 0 ELSE 1) < MaxMeta
+FileHeader(f, cm) == /\ Step /\ MetaRoom(f) /\ H("Header", f, 0, 0, cm.st, cm.v, <<>>)
+                     /\ files' = [files EXCEPT ![f].fm.headers = Append(@, cm)]
+                     /\ UNCHANGED <<cells, ntok, obs, bound>>
+FilePkgComment(f, cm) == /\ Step /\ MetaRoom(f) /\ H("PkgComment", f, 0, 0, cm.st, cm.v, <<>>)
+                         /\ files' = [files EXCEPT ![f].fm.comments = Append(@, cm)]
+                         /\ UNCHANGED <<cells, ntok, obs, bound>>
+FilePreamble(f, cm) == /\ Step /\ MetaRoom(f) /\ H("Preamble", f, 0, 0, cm.st, cm.v, <<>>)
+                       /\ files' = [files EXCEPT ![f].fm.preamble = Append(@, cm)]
+                       /\ UNCHANGED <<cells, ntok, obs, bound>>
+FileCanonical(f, p) == /\ Step /\ MetaRoom(f) /\ H("Canonical", f, 0, 0, p, "", <<>>)
+                       /\ files' = [files EXCEPT ![f].fm.canonical = p]
+                       /\ UNCHANGED <<cells, ntok, obs, bound>>
+
 Anon(f, p) == Find(files[f].imps, p).name \in {"", "_"} /\ p # files[f].local /\ DoAnon(f, p)
 
 (* ------------------------------ observations ----------------------------- *)
 CfgOf(f) == [local |-> files[f].local, prefix |-> files[f].prefix, hints |-> files[f].hints, paths |-> PathInfo]
-FC == [name |-> "main", canonicalq |-> "", headers |-> <<>>, comments |-> <<>>, preamble |-> <<>>]
+FCOf(f) == [name |-> "main", canonicalq |-> IF files[f].fm.canonical = "" THEN "" ELSE "\"" \o files[f].fm.canonical \o "\"",
+            headers |-> files[f].fm.headers, comments |-> files[f].fm.comments, preamble |-> files[f].fm.preamble]
 Toks(ps) == LET q == SelectSeq(ps, LAMBDA x : x.c \in {"t", "pk"} /\ x.s # "") IN [i \in DOMAIN q |-> q[i].s]
 Bind(b, refs, bare) == [p \in DOMAIN b \cup {r[1] : r \in refs} \cup bare |->
                           IF p \in DOMAIN b THEN b[p] ELSE IF p \in bare THEN "" ELSE (CHOOSE r \in refs : r[1] = p)[2]]
@@ -180,7 +201,7 @@ BodyCells(f) == UNION {IF files[f].body[i] > 0 THEN {files[f].body[i]} ELSE Body
 
 RenderFileStep(f) ==
   /\ Step /\ H("Render", f, 0, 0, "", "", <<>>)
-  /\ LET r  == RenderFile(CfgOf(f), FC, BodyTrees(f), files[f].imps, Sorted)
+  /\ LET r  == RenderFile(CfgOf(f), FCOf(f), BodyTrees(f), files[f].imps, Sorted)
          bp == FileBody(CfgOf(f), BodyTrees(f), files[f].imps)[1]
      IN /\ files' = [files EXCEPT ![f].imps = r[2]]
         /\ obs' = [kind |-> "file", f |-> f, c |-> 0, text |-> Flat(r[1]), toks |-> Toks(r[1]), refs |-> Refs(bp), bare |-> Bare(bp),
@@ -221,6 +242,8 @@ Next ==
   \/ \E f \in DOMAIN files, p \in Paths : Anon(f, p) \/ \E n \in HintNames : ImportAlias(f, p, n) \/ (n # "." /\ ImportName(f, p, n))
   \/ \E f \in DOMAIN files : RenderFileStep(f)
   \/ \E f, g \in DOMAIN files : FileAddFile(f, g)
+  \/ \E f \in DOMAIN files, cm \in CmtPool : FileHeader(f, cm) \/ FilePkgComment(f, cm) \/ FilePreamble(f, cm)
+  \/ \E f \in DOMAIN files : FileCanonical(f, "example.com/canon")
   \/ \E c \in DOMAIN cells : RenderPlainStep(c)
   \/ Finish
 Spec == Init /\ [][Next]_vars
